@@ -125,6 +125,13 @@ def probe(rec, counter, call, what, ctx):
         if counter.n != before:
             rec.violation("kernel-entered-before-refusal", {"fault": what, **ctx, "exception": name})
             return
+        refusal_of_another_problem = (ctx["path"].startswith("evaluate") and name in ("NoKernelFoundError", "DiagonalAccessError", "BroadcastTargetIndexError"))
+        if refusal_of_another_problem:
+            # on the evaluate path the formats come from the arguments: an argument of another format (or one named like
+            # the target) names ANOTHER problem, which may have no kernel - a documented refusal, before any kernel runs
+            rec.count("faults_refused")
+            rec.countd("refusal_types", name)
+            return
         if name not in ALLOWED:
             known = None
             rec.violation(f"refused-with-undocumented:{name}", {"fault": what, **ctx, "error": str(exc)[:200]}, known)
